@@ -372,6 +372,11 @@ func TestC08Repeat(t *testing.T) {
 	for _, lit := range []string{"100000000000000000000", "12345678901234567890.500", "1e25", "340282366920938463463374607431768211456000", "0.10000000000000000000", "'text'", "dec", "u64", "f64", "t"} {
 		progs = append(progs, lit, "i > 100 ? i : "+lit, "n || "+lit, "n ?? "+lit, "+"+lit, "1, "+lit, "$v = "+lit+", $v", "["+lit+", "+lit+"]")
 	}
+	// operations whose operands are all literal-kind nodes, one of them `this` / `ctx`: constant-looking, yet the value
+	// depends on the runner's data
+	for _, op := range []string{"+", "<", ">", "<=", ">=", "==", "!=", "===", "??", "||", "&&"} {
+		progs = append(progs, "'x' "+op+" this.s", "'x' "+op+" this", "this "+op+" 'x'", "(this.i) "+op+" 1", "typeof this "+op+" typeof ctx", "[this "+op+" null, this.n "+op+" this.n]")
+	}
 	for _, a := range []string{"m", "mi", "ms", "mik", "st", "arr", "n"} {
 		// map-typed parameter: a map with several unconvertible entries
 		progs = append(progs, "fnM("+a+")", "[fnM("+a+") ?? 1, fnM("+a+")]")
